@@ -376,12 +376,26 @@ func runCheck(repo, verif, prop string, thorough, verbose, writeEvidence, update
 	}
 	all := append(append([]*Oblig{}, run.canaries...), run.obls...)
 	if sweep != nil {
+		for _, o := range sweep.obls {
+			// only what is claimed deserves a second, longer attempt
+			o.noRetry = !(sweep.ledger[o.ID] || sweep.contracted[o])
+		}
 		all = append(all, sweep.obls...)
 	}
+	tSolve := time.Now()
 	if err := solveAll(all, wd, timeout, thorough, 12); err != nil {
 		fmt.Printf("ENGINE-ERROR: %v\n", err)
 		return 2
 	}
+	if os.Getenv("GCV_DEBUG_TIME") != "" {
+		fmt.Fprintf(os.Stderr, "time: encode %.1fs solve %.1fs\n", tSolve.Sub(t0).Seconds(), time.Since(tSolve).Seconds())
+	}
+	tFin := time.Now()
+	defer func() {
+		if os.Getenv("GCV_DEBUG_TIME") != "" {
+			fmt.Fprintf(os.Stderr, "time: after-solve %.1fs\n", time.Since(tFin).Seconds())
+		}
+	}()
 	if sweep != nil {
 		sweep.finish(eng, verif, updateLedger)
 	}
